@@ -10,6 +10,7 @@ package main
 
 import (
 	"crypto/sha256"
+	"encoding/binary"
 	"encoding/json"
 	"fmt"
 	"os"
@@ -229,13 +230,16 @@ func snapStr(ok bool, es []ent) string {
 }
 
 // makeCount writes a count file with the real library.
-func (w *world) makeCount(p progT, now time.Time, ctrs [][2]int64) string {
+func (w *world) makeCount(p progT, now time.Time, ctrs [][2]int64, extra ...string) string {
 	counter.CounterTime = func() time.Time { return now }
 	f := counter.VerifNewFile()
 	f.SetBuildInfo(&debug.BuildInfo{GoVersion: p.gover, Path: p.path, Main: debug.Module{Path: p.path, Version: p.ver}})
 	f.Rotate1()
 	for _, c := range ctrs {
 		f.NewCounter(ctrName(c[0])).Add(c[1])
+	}
+	for i, x := range extra {
+		f.NewCounter(x).Add(int64(1 + i%7))
 	}
 	name := f.CurrentName()
 	f.Close()
@@ -261,6 +265,36 @@ func (w *world) makeCount(p progT, now time.Time, ctrs [][2]int64) string {
 		name = newName
 	}
 	return name
+}
+
+// chainsOK is an independent structural check of the documented v1 layout:
+// every hash chain of the file stays inside the file.  Files for which it
+// fails are unparseable whatever the parser under test says (the parser's own
+// verdict decides for every other kind of damage).
+func chainsOK(data []byte) bool {
+	const prefix = "# telemetry/counter file v1\n"
+	np := (len(prefix) + 3) / 4 * 4
+	if len(data) < np+4 || string(data[:len(prefix)]) != prefix {
+		return true
+	}
+	hdrLen := int(binary.LittleEndian.Uint32(data[np:]))
+	if hdrLen < np+4 || hdrLen+4+4*512 > len(data) {
+		return true
+	}
+	for i := 0; i < 512; i++ {
+		off := int(binary.LittleEndian.Uint32(data[hdrLen+4+4*i:]))
+		for n := 0; off != 0; n++ {
+			if off+16 > len(data) || n > len(data)/32 {
+				return false
+			}
+			nameLen := int(binary.LittleEndian.Uint32(data[off+8:]) & 0x00ffffff)
+			if off+16+nameLen > len(data) {
+				return false
+			}
+			off = int(binary.LittleEndian.Uint32(data[off+12:]))
+		}
+	}
+	return true
 }
 
 // variant: p with exactly one of the five identity fields changed
@@ -372,12 +406,21 @@ func pickScen1() scen {
 	if tag == "c07" && rnd.Chance(4) {
 		return scen{kind: "race3", nthreads: 3, policy: "directed", outcomes: "all200", directed: "race3"}
 	}
+	if tag == "c08" && rnd.Chance(6) {
+		// a request in flight for more than a day: the lock of the run that sent it gets old
+		return scen{kind: "oldlock", nthreads: 2, policy: "directed", outcomes: "all200", directed: "oldlock"}
+	}
 	if tag == "c08" && rnd.Chance(7) {
 		// three runs, two or more weeks to upload: the END of one run against another run's request in flight
 		return scen{kind: "lateunlock", nthreads: 3, policy: "directed", outcomes: "firstfail", directed: "lateunlock", pending2: true}
 	}
 	if tag == "c08" && rnd.Chance(4) {
 		return scen{kind: "emptybody", nthreads: 2, policy: "directed", outcomes: Pick(rnd, []string{"all200", "mixed"}), directed: "emptybody"}
+	}
+	if tag == "c07" && rnd.Chance(6) {
+		// two runs of ONE process: the first finds the count files active (and parses them for their end
+		// date), the programs go on counting, the second run - after the week's end - folds them
+		return scen{kind: "grow", nthreads: 2, policy: "directed", outcomes: "all200", directed: "grow"}
 	}
 	if tag == "c07" {
 		switch rnd.Intn(10) {
@@ -618,6 +661,79 @@ func scenario() {
 		}
 	}
 
+	// scenario grow: the files as the FIRST run will see them (v1) are kept aside; then the programs
+	// count on (same files, larger values, a new counter): that final state is what the case describes
+	growV1 := map[string][]byte{}
+	if sc.directed == "grow" {
+		es, _ := os.ReadDir(w.local)
+		for _, e := range es {
+			if strings.HasSuffix(e.Name(), ".v1.count") {
+				growV1[e.Name()], _ = os.ReadFile(filepath.Join(w.local, e.Name()))
+			}
+		}
+		for pi := 0; pi < nProgs; pi++ {
+			p := progs[(pstart+pi)%len(progs)]
+			w.makeCount(p, forcedNow, [][2]int64{{int64(pi), int64(20 + rnd.Intn(9))}, {3, int64(30 + rnd.Intn(9))}, {int64((pi + 1) % 3), int64(40 + rnd.Intn(9))}})
+		}
+		out.Note("grow-files")
+	}
+
+	// count files with a valid header and metadata whose hash chains leave the file: a file that
+	// grew beyond its first page and was truncated, or a record whose link points past the end.
+	// Expired like the others: only the parser's refusal keeps the uploader away from them.
+	damChance := 22
+	if tag == "c08" {
+		damChance = 6
+	}
+	if !forced && rnd.Chance(damChance) {
+		p := progs[rnd.Intn(len(progs))]
+		now := base.Add(time.Duration(rnd.Intn(nWeeks*7))*day + time.Duration(rnd.Intn(86400))*time.Second)
+		key := p.path + p.ver + now.Format("2006-01-02")
+		fkey := "file:" + filepath.Base(p.path) + p.ver + p.gover + p.goos + p.goarch + now.Format("2006-01-02")
+		if !used[key] && !used[fkey] {
+			used[key], used[fkey] = true, true
+			ctrs := [][2]int64{{0, int64(3 + rnd.Intn(5))}, {1, int64(3 + rnd.Intn(5))}, {2, int64(3 + rnd.Intn(5))}, {3, int64(3 + rnd.Intn(5))},
+				{stackBase, int64(40 + rnd.Intn(5))}}
+			if rnd.Chance(50) {
+				var extra []string
+				for i := 0; i < 260; i++ {
+					extra = append(extra, fmt.Sprintf("filler/%03d/%s", i, strings.Repeat("x", 40)))
+				}
+				name := w.makeCount(p, now, ctrs, extra...)
+				if fi, err := os.Stat(name); err == nil && fi.Size() > 16*1024 {
+					os.Truncate(name, 16*1024)
+					out.Note("damaged-truncated-after-growth")
+				}
+			} else {
+				name := w.makeCount(p, now, ctrs)
+				if data, err := os.ReadFile(name); err == nil && chainsOK(data) {
+					np := (len("# telemetry/counter file v1\n") + 3) / 4 * 4
+					hdrLen := int(binary.LittleEndian.Uint32(data[np:]))
+					last := -1
+					for i := 0; i < 512; i++ {
+						if binary.LittleEndian.Uint32(data[hdrLen+4+4*i:]) != 0 {
+							last = i
+						}
+					}
+					if last >= 0 {
+						off := int(binary.LittleEndian.Uint32(data[hdrLen+4+4*last:]))
+						for {
+							next := int(binary.LittleEndian.Uint32(data[off+12:]))
+							if next == 0 {
+								break
+							}
+							off = next
+						}
+						// the last record of the last chain links to a record past the end
+						binary.LittleEndian.PutUint32(data[off+12:], uint32(len(data)+64))
+						os.WriteFile(name, data, 0666)
+						out.Note("damaged-dangling-link")
+					}
+				}
+			}
+		}
+	}
+
 	// malformed count files
 	if !forced && rnd.Chance(30) {
 		var donor []byte
@@ -671,7 +787,7 @@ func scenario() {
 		data, _ := os.ReadFile(filepath.Join(w.local, e.Name()))
 		fs := fileSpec{name: e.Name(), kind: "cnt", blob: w.blob(data)}
 		pf, err := counter.Parse(e.Name(), data)
-		if err == nil {
+		if err == nil && chainsOK(data) {
 			if b, en, ok := span(pf); ok {
 				fs.parsed = true
 				fs.begin, fs.end = b.Unix(), en.Unix()
@@ -740,6 +856,11 @@ func scenario() {
 		upPresent = true
 		out.Note("pre-older-marker")
 	}
+	if sc.eventual && rnd.Chance(40) {
+		// a ready report of long ago that was never delivered: the code uploads it whatever its age
+		addRaw(w.local, base.Add(-time.Duration(30+rnd.Intn(40))*day).Format("2006-01-02")+".json", rawBody("a"))
+		out.Note("pre-ancient-ready")
+	}
 	if datedDir {
 		addRaw(w.local, base.Add(-14*day).Format("2006-01-02")+".json", rawBody("o"))
 	}
@@ -752,12 +873,21 @@ func scenario() {
 	if tag == "c05" {
 		lockChance = 20
 	}
+	if tag == "c08" {
+		lockChance = 14
+	}
 	if rnd.Chance(lockChance) && !sc.eventual && !forced {
 		staleLock = wkR()
 		os.MkdirAll(w.up, 0777)
 		os.WriteFile(filepath.Join(w.up, staleLock+".json.lock"), nil, 0666)
 		upPresent = true
 		out.Note("pre-stale-lock")
+		if rnd.Chance(65) {
+			// file ages are part of the state: the dead uploader's lock is hours or days old
+			old := time.Now().Add(-time.Duration(2+rnd.Intn(70)) * time.Hour)
+			os.Chtimes(filepath.Join(w.up, staleLock+".json.lock"), old, old)
+			out.Note("pre-old-lock")
+		}
 	}
 	if !forced && rnd.Chance(4) {
 		addRaw(w.local, "2099-01-01.json", rawBody("f"))
@@ -784,8 +914,16 @@ func scenario() {
 	if modeOn {
 		mode = "on"
 	}
-	if asof.IsZero() {
-		os.WriteFile(td.ModeFile(), []byte(mode), 0666)
+	if asof.IsZero() && !modeOn && tag == "c05" && rnd.Chance(25) {
+		// a blank mode file (empty, or white space only) means: not on, not off
+		os.WriteFile(td.ModeFile(), []byte(Pick(rnd, []string{"", "\n", "  \n", "\t"})), 0666)
+		out.Note("mode-file-blank")
+	} else if asof.IsZero() {
+		content := mode
+		if tag == "c05" && rnd.Chance(30) {
+			content = mode + "\n" // as an editor leaves it
+		}
+		os.WriteFile(td.ModeFile(), []byte(content), 0666)
 	} else {
 		asofStr = asof.Format("2006-01-02")
 		os.WriteFile(td.ModeFile(), []byte(mode+" "+asofStr), 0666)
@@ -826,6 +964,10 @@ func scenario() {
 		if sc.policy == "seq" && starts[i].Before(starts[i-1]) {
 			starts[i] = starts[i-1].Add(time.Duration(rnd.Intn(3)) * day)
 		}
+	}
+	if sc.directed == "grow" {
+		starts[0] = ends[0].Add(-time.Duration(1+rnd.Intn(3600)) * time.Second) // the week is not over yet
+		starts[1] = lastEnd.Add(time.Duration(1+rnd.Intn(5)) * day)
 	}
 	if sc.eventual {
 		starts[nth-1] = lastEnd.Add(time.Duration(1+rnd.Intn(5)) * day)
@@ -951,6 +1093,16 @@ func scenario() {
 		head = append(head, I(starts[0].Unix()), I(int64(starts[0].Nanosecond())), B(modeOn), B(!asof.IsZero()), I(asof.Unix()))
 		faultCases(faultN, w, dir, cfg, starts[0], modeOn, asof, head)
 		return
+	}
+	// scenario grow: back to what the first run sees; both versions of a file are "that count file"
+	growV2 := map[string][]byte{}
+	for name, v1 := range growV1 {
+		v2, _ := os.ReadFile(filepath.Join(w.local, name))
+		growV2[name] = v2
+		if id, ok := w.blobOf[sha256.Sum256(v2)]; ok {
+			w.blobOf[sha256.Sum256(v1)] = id
+		}
+		os.WriteFile(filepath.Join(w.local, name), v1, 0666)
 	}
 	// ---- threads ----
 	url := "http://verif.invalid/upload"
@@ -1151,9 +1303,14 @@ func scenario() {
 	type dstep struct {
 		tid   int
 		until func(ci callInfo, calls int) bool
+		do    func() // tid < 0: something the world does between steps
 	}
 	runDirected := func(ds []dstep) {
 		for _, d := range ds {
+			if d.tid < 0 {
+				d.do()
+				continue
+			}
 			for budget > 0 && alive(d.tid) && !d.until(w.classify(s.Last(tids[d.tid]).Label), calls[d.tid]) {
 				budget--
 				stepThread(d.tid)
@@ -1167,13 +1324,41 @@ func scenario() {
 		// count files and uploads W.json; B=2 listed the directory before all that, reads one file,
 		// misses the other, and finds neither report nor marker in its snapshot.
 		runDirected([]dstep{
-			{2, func(ci callInfo, n int) bool { return n >= 2 }},
-			{0, func(ci callInfo, n int) bool {
+			{tid: 2, until: func(ci callInfo, n int) bool { return n >= 2 }},
+			{tid: 0, until: func(ci callInfo, n int) bool {
 				return ci.op == "OpenFile" && strings.HasPrefix(filepath.Base(ci.path), "local.")
 			}},
-			{1, func(ci callInfo, n int) bool { return ci.op == "ReadFile" && ci.phase == 2 }},
-			{2, func(ci callInfo, n int) bool { return ci.op == "Stat" }},
-			{1, never}, {2, never}, {0, never},
+			{tid: 1, until: func(ci callInfo, n int) bool { return ci.op == "ReadFile" && ci.phase == 2 }},
+			{tid: 2, until: func(ci callInfo, n int) bool { return ci.op == "Stat" }},
+			{tid: 1, until: never}, {tid: 2, until: never}, {tid: 0, until: never},
+		})
+		sc.policy = "seq"
+	case "grow":
+		runDirected([]dstep{
+			{tid: 0, until: never},
+			{tid: -1, do: func() {
+				for name, v2 := range growV2 {
+					os.WriteFile(filepath.Join(w.local, name), v2, 0666)
+				}
+			}},
+			{tid: 1, until: never},
+		})
+		sc.policy = "seq"
+	case "oldlock":
+		// A=0 holds the lock of a week and is parked before its request; more than a day passes (every
+		// lock file of upload/ is back-dated); B=1 runs completely; then A's request goes out.
+		runDirected([]dstep{
+			{tid: 0, until: func(ci callInfo, n int) bool { return ci.op == "Post" }},
+			{tid: -1, do: func() {
+				es, _ := os.ReadDir(w.up)
+				old := time.Now().Add(-time.Duration(25+rnd.Intn(48)) * time.Hour)
+				for _, e := range es {
+					if strings.HasSuffix(e.Name(), ".lock") {
+						os.Chtimes(filepath.Join(w.up, e.Name()), old, old)
+					}
+				}
+			}},
+			{tid: 1, until: never}, {tid: 0, until: never},
 		})
 		sc.policy = "seq"
 	case "lateunlock":
@@ -1181,15 +1366,15 @@ func scenario() {
 		// second; B=1 locks the first report's week and is parked before its request; A runs to its END;
 		// C=2 runs completely; then B's request goes out.
 		runDirected([]dstep{
-			{0, func(ci callInfo, n int) bool { return ci.op == "Post" && postsBy[0] >= 1 }},
-			{1, func(ci callInfo, n int) bool { return ci.op == "Post" }},
-			{0, never}, {2, never}, {1, never},
+			{tid: 0, until: func(ci callInfo, n int) bool { return ci.op == "Post" && postsBy[0] >= 1 }},
+			{tid: 1, until: func(ci callInfo, n int) bool { return ci.op == "Post" }},
+			{tid: 0, until: never}, {tid: 2, until: never}, {tid: 1, until: never},
 		})
 		sc.policy = "seq"
 	case "emptybody":
 		runDirected([]dstep{
-			{0, func(ci callInfo, n int) bool { return ci.op == "Write" }},
-			{1, never}, {0, never},
+			{tid: 0, until: func(ci callInfo, n int) bool { return ci.op == "Write" }},
+			{tid: 1, until: never}, {tid: 0, until: never},
 		})
 		sc.policy = "seq"
 	}
